@@ -16,7 +16,6 @@ The executed API calls are text lines (`exec`), so the replay script of a failur
 from common import *          # noqa: F401,F403
 from c03_refmodel import (RModel, RCell, RRef, MROError, all_dags, canon, cpython_mro, ordered_subsets)
 import ast
-import copy
 
 HEAD = """import sys, warnings
 warnings.filterwarnings("ignore")
@@ -188,9 +187,6 @@ class World:
         if lay == "nested":
             return "P"
         return "P" if i % 2 else "m"       # mixed
-
-    def src(self, cd, name):
-        return cd.source(name)
 
     def setref_line(self, i, v):
         mode = self.spec.refmode
@@ -1258,7 +1254,10 @@ def run(res, tier, seed):
         h = ()
         for _i in range(length):
             w = _ref_world(sp, h)
-            h = h + (rng.choice(w.applicable(2)),)
+            ops = w.applicable(2) if w is not None else []
+            if not ops:         # every space was deleted
+                break
+            h = h + (rng.choice(ops),)
         sampled.append((sp, h, True))
     res.notes.append("sampled histories generated: %d" % len(sampled))
     sample_tasks = [("cases", ch, "sampled histories") for ch in chunks(sampled, 25)]
